@@ -500,6 +500,29 @@ var hostCloseCase bool
 // closeCompiledCase: CompiledModule.Close() right after instantiation.
 var closeCompiledCase bool
 
+// multiCase: listeners are combined through experimental.MultiFunctionListenerFactory.
+var multiCase bool
+
+// quietFactory listens to the same functions as the recorder; its listeners only walk the stack iterator.
+type quietFactory struct{ r *recorder }
+
+func (q quietFactory) NewFunctionListener(d api.FunctionDefinition) experimental.FunctionListener {
+	if !q.r.listened(rawFid(d)) {
+		return nil
+	}
+	return quietListener{}
+}
+
+type quietListener struct{}
+
+func (quietListener) Before(_ context.Context, _ api.Module, _ api.FunctionDefinition, _ []uint64, it experimental.StackIterator) {
+	for n := 0; n < 64 && it.Next(); n++ {
+		_ = it.Function().Definition()
+	}
+}
+func (quietListener) After(context.Context, api.Module, api.FunctionDefinition, []uint64) {}
+func (quietListener) Abort(context.Context, api.Module, api.FunctionDefinition, error)    {}
+
 func runWith(p *wgen.Program, script []wrun.Step, compiler bool, mode int, subsetSeed uint64, cache wazero.CompilationCache) *runOut {
 	rec := &recorder{engine: map[bool]string{false: "interp", true: "compiler"}[compiler], all: mode == 1, tcFuncs: tailCallFuncs(p), counts: map[string]int{}}
 	rec.listened = func(f fid) bool {
@@ -517,7 +540,13 @@ func runWith(p *wgen.Program, script []wrun.Step, compiler bool, mode int, subse
 	ctx := context.Background()
 	opt := wrun.Options{Compiler: compiler, NoDigest: true}
 	if mode != 0 {
-		ctx = experimental.WithFunctionListenerFactory(ctx, rec)
+		var factory experimental.FunctionListenerFactory = rec
+		if multiCase {
+			// the recorder shares every function with a second listener through the multi-listener wrapper
+			// (own stack-iterator wrapper that caches and rewinds the engine's iterator)
+			factory = experimental.MultiFunctionListenerFactory(rec, quietFactory{rec})
+		}
+		ctx = experimental.WithFunctionListenerFactory(ctx, factory)
 		opt.OnReenter = func(enter bool) {
 			if enter {
 				rec.actBase = append(rec.actBase, len(rec.stack))
@@ -587,9 +616,13 @@ func child(mode string, in json.RawMessage) any {
 	// a fifth of the cases: the embedder closes the CompiledModule right after instantiation (the instance stays
 	// usable); traps must still unwind through listeners although the engine no longer lists the compiled code
 	closeCompiledCase = lc.Seed%5 == 1
+	multiCase = lc.Seed%4 == 2
 	lr := lresult{Events: map[string]int{}}
 	if closeCompiledCase {
 		lr.Events["cases_with_compiled_module_closed_after_instantiation"] = 1
+	}
+	if multiCase {
+		lr.Events["cases_with_multi_listener_factory"] = 1
 	}
 	if hostCloseCase {
 		lr.Events["cases_with_host_close_enabled"] = 1
